@@ -62,6 +62,7 @@ type c09Case struct {
 	Ops     []c09Op    `json:"ops,omitempty"`
 	NH      int        `json:"handles,omitempty"`
 	Reqs    []c09Req   `json:"reqs,omitempty"`
+	SameHandle bool    `json:"concurrent_on_same_handle,omitempty"` // the request after the held one is issued concurrently on the SAME handle (it has to wait for the handle's mutex)
 	Held    int        `json:"held_request,omitempty"` // 1+index of the request that is held inside its first store call while the following requests (on other handles) run
 	ZeroRows bool      `json:"zero_size_rows,omitempty"` // hand-made index with rows of size 0: outside index_describes, correspondence only
 	CLIOff  int        `json:"cli_offset,omitempty"`
@@ -726,6 +727,26 @@ func c09RunFuse(c *c09Case) (obs string, failAt int, cls, what string, hung bool
 				out[i] = "NOHANDLE"
 				continue
 			}
+			if q.H == heldH && c.SameHandle && c.Held == i {
+				// issued while the held request is still inside the store: on the same handle it must wait for the
+				// handle's mutex (the requests of a handle are served one at a time), then be served correctly
+				bg := make(chan interface{}, 1)
+				go func(i int, q c09Req) {
+					defer func() { bg <- recover() }()
+					do(i, q)
+				}(i, q)
+				var p interface{}
+				select {
+				case p = <-bg: // it did not wait
+				case <-time.After(3 * time.Millisecond):
+					release()
+					p = <-bg
+				}
+				if p != nil {
+					panic(p)
+				}
+				continue
+			}
 			if q.H == heldH { // the handle's mutex is taken by the held request: it has to finish first
 				release()
 			}
@@ -1137,6 +1158,20 @@ func runC09(a vh.Args, o *vh.Oracle, r *vh.Result) error {
 				if c.Reqs[k].H == c.Reqs[h].H {
 					c.Reqs[k].H = (c.Reqs[h].H + 1 + rng.Intn(c.NH-1)) % c.NH
 				}
+			}
+			if rng.Bool() { // the very next request arrives on the SAME handle, at another offset, while this one is in the store
+				c.SameHandle = true
+				c.Reqs[h+1].H = c.Reqs[h].H
+				if L > 0 {
+					c.Reqs[h+1].Off = (c.Reqs[h].Off + L/2 + int64(rng.Intn(5))) % L
+					if c.Reqs[h+1].Off < 0 {
+						c.Reqs[h+1].Off += L
+					}
+					if c.Reqs[h+1].Len == 0 {
+						c.Reqs[h+1].Len = 1 + rng.Intn(c.Max)
+					}
+				}
+				r.Dist("fuse:concurrent-on-one-handle")
 			}
 			r.Dist("fuse:overlapping-handles")
 		}
